@@ -17,7 +17,7 @@ DEFAULT = dict(
     p_group_result=0.25, p_flatten=0.4, p_as=0.12, p_named=0.25,
     p_opt=0.25, p_group_param=0.25, p_soft=0.35, p_obj=0.5, p_nest=0.25,
     p_dup=0.06, p_cycle=0.1, p_unknown_dep=0.08, p_foreign_dep=0.12,
-    n_types=8, early_scopes=0.3, p_multi_dec=0.25, p_group_dec=0.3, p_dec_self=0.85, p_one_obj=0.0, p_soft_pattern=0.0, p_dec_chain=0.0, p_dup_as=0.03, p_dup_dec_key=0.0, p_variadic=0.12,
+    n_types=8, early_scopes=0.3, p_multi_dec=0.25, p_group_dec=0.3, p_dec_self=0.85, p_one_obj=0.0, p_soft_pattern=0.0, p_dec_chain=0.0, p_dup_as=0.03, p_dup_dec_key=0.0, p_variadic=0.12, p_ns=0.2,
 )
 
 PROFILES = {
@@ -42,7 +42,7 @@ PROFILES = {
                    w_decorate=0.6, p_fault=0.05, p_export=0.2),
     "soft": dict(p_group_result=0.6, p_group_param=0.7, p_soft=0.6, n_types=4, w_decorate=0.3, p_fault=0.03, p_one_obj=0.7, p_soft_pattern=0.35),
     "decor": dict(w_decorate=7, p_multi_dec=0.35, p_group_dec=0.35, n_types=5, p_fault=0.12, w_scope=3, p_dec_chain=0.35,
-                  p_dup_dec_key=0.04),
+                  p_dup_dec_key=0.04, p_ns=0.45),
     "callbacks": dict(p_callback=0.8, p_fault=0.3, w_decorate=3, n_types=6),
     "dry": dict(p_dry=1.0, p_fault=0.0, p_callback=0.35, p_variadic=0.3, w_decorate=3),
 }
@@ -112,7 +112,10 @@ class Gen:
     def leaf_param(self, k, opt=False, soft=False):
         if k[0] == "s":
             return dict(k="single", ty=k[1], name=k[2], opt=opt)
-        return dict(k="group", ty=k[1], group=k[2], soft=soft)
+        d = dict(k="group", ty=k[1], group=k[2], soft=soft)
+        if k[1] < 3 and self.chance(self.p["p_ns"]):
+            d["ns"] = self.r.choice([1, 2])          # consumed through the named slice type NS<ty> (same key for dig and for the model)
+        return d
 
     def pick_dep(self, s):
         """one dependency key for a consumer living in scope s"""
@@ -387,6 +390,8 @@ class Gen:
             self.prov[chain[-1]].setdefault(k, f["id"])
         for sc in (chain[-1], chain[1]):
             res = dict(k="group", ty=k[1], group=k[2], flatten=False, **{"as": []}) if grp else dict(k="single", ty=k[1], name=k[2], **{"as": []})
+            if grp and k[1] < 3 and self.chance(self.p["p_ns"]):
+                res["ns"] = self.r.choice([1, 2])
             par = [self.leaf_param(k)] if self.chance(0.8) else []
             f = self.new_fn(params=self.structure_params(par), results=[dict(k="obj", fields=[res])], err=self.chance(0.3))
             self.decorate_fn(f, role="dec")
@@ -409,6 +414,8 @@ class Gen:
                 if k in deckeys:
                     continue
                 leaves.append(dict(k="group", ty=k[1], group=k[2], flatten=False, **{"as": []}))
+                if k[1] < 3 and self.chance(self.p["p_ns"]):
+                    leaves[-1]["ns"] = self.r.choice([1, 2])     # the decorator returns the group as the named slice type NS<ty>
             else:
                 vs = self.visible_keys(s, "s") or self.all_keys("s")
                 k = self.r.choice(vs) if vs and self.chance(0.85) else self.rand_single_key()
